@@ -160,6 +160,82 @@ func scripts(thorough bool) []script {
 	return ss
 }
 
+// doubleScripts (thorough): every ordered pair of record-level deviations
+// (drop, replace, insert, swap) applied to the valid response.
+func doubleScripts() []script {
+	ok := []string{"ntske/1"}
+	base := baseRecs(2)
+	type op struct {
+		name string
+		f    func([]rec) []rec
+	}
+	var ops []op
+	names := []string{"nextproto", "aead", "server", "port", "cookie0", "cookie1", "eom"}
+	for i := range base {
+		ops = append(ops, op{"drop-" + names[i], func(rs []rec) []rec {
+			if i >= len(rs) {
+				return rs
+			}
+			return without(rs, i)
+		}})
+	}
+	repl := func(name string, i int, r rec) {
+		ops = append(ops, op{name, func(rs []rec) []rec {
+			if i >= len(rs) {
+				return rs
+			}
+			out := append([]rec{}, rs...)
+			out[i] = r
+			return out
+		}})
+	}
+	repl("aead=16", 1, rec{rAEAD, true, u16(16)})
+	repl("aead=0", 1, rec{rAEAD, true, u16(0)})
+	repl("nextproto=1", 0, rec{rNext, true, u16(1)})
+	repl("server=name", 2, rec{rServer, false, []byte("10.0.0.8")})
+	repl("port=123", 3, rec{rPort, false, u16(123)})
+	ins := []struct {
+		n string
+		r rec
+	}{
+		{"warning", rec{rWarn, true, u16(0)}}, {"error0", rec{rErr, true, u16(0)}}, {"error1", rec{rErr, true, u16(1)}},
+		{"unknown-critical", rec{0x4abc & 0x7fff, true, []byte{1, 2, 3}}}, {"unknown-optional", rec{0x4abc & 0x7fff, false, []byte{1, 2, 3}}},
+		{"unknown-empty", rec{0x7ff0, false, nil}}, {"eom", rec{rEOM, true, nil}}, {"cookie", rec{rCookie, false, cookie(5)}}, {"aead15", rec{rAEAD, true, u16(15)}},
+	}
+	for _, in := range ins {
+		for i := 0; i <= len(base); i++ {
+			ops = append(ops, op{fmt.Sprintf("insert-%s@%d", in.n, i), func(rs []rec) []rec { return insert(rs, min(i, len(rs)), in.r) }})
+		}
+	}
+	for i := 0; i+1 < len(base); i++ {
+		ops = append(ops, op{fmt.Sprintf("swap@%d", i), func(rs []rec) []rec {
+			if i+1 >= len(rs) {
+				return rs
+			}
+			out := append([]rec{}, rs...)
+			out[i], out[i+1] = out[i+1], out[i]
+			return out
+		}})
+	}
+	seen := map[string]bool{}
+	var ss []script
+	for _, a := range ops {
+		for _, b := range ops {
+			rs := b.f(a.f(base))
+			var stream []byte
+			for _, r := range rs {
+				stream = append(stream, r.bytes()...)
+			}
+			if seen[string(stream)] {
+				continue
+			}
+			seen[string(stream)] = true
+			ss = append(ss, script{Name: a.name + "+" + b.name, ALPN: ok, Recs: rs, Cut: -1})
+		}
+	}
+	return ss
+}
+
 type expectation struct {
 	ok      bool
 	cookies [][]byte
@@ -517,6 +593,11 @@ func TestCheck(t *testing.T) {
 		}
 		r.Explore(mc.Config{Name: "pairs", Bound: -1}, history(r, [][]script{distinct, ss}))
 		r.Explore(mc.Config{Name: "triples", Bound: -1}, history(r, [][]script{distinct, distinct, distinct[:mc.Pick(r, 4, len(distinct))]}))
+		if r.Thorough() {
+			ds := doubleScripts()
+			r.Extra["double_scripts"] = len(ds)
+			r.Explore(mc.Config{Name: "double-deviation", Bound: -1}, history(r, [][]script{ds}))
+		}
 		// 3. the repository's own handler as peer
 		r.Explore(mc.Config{Name: "real-handler", Bound: -1, ShardN: 1}, realHandler(r))
 		// 4. destination of the following NTP request
@@ -528,6 +609,6 @@ func TestCheck(t *testing.T) {
 			}
 		}
 		r.Extra["scripts"] = len(ss)
-		r.Extra["rule"] = "scripted TLS 1.3 peer: the valid record sequence and every single deviation (each record dropped, replaced, adjacent records swapped, warning/error(0,1,2,7)/unknown critical/unknown optional records inserted at every position, 0/1/8/9 cookies, the valid response handed to TLS in one write, one write per record, or writes of 1/7/64/150 bytes, 8 cookies of 700 bytes (more than the client's read buffer), truncation at every byte, ALPN none/other, connection closed before/after the handshake, connection kept open); histories of 2 and 3 FetchData calls over 15 distinct scripts; the project's own key-exchange handler as peer; destination of the following NTS request"
+		r.Extra["rule"] = "scripted TLS 1.3 peer: the valid record sequence and every single deviation (each record dropped, replaced, adjacent records swapped, warning/error(0,1,2,7)/unknown critical/unknown optional records inserted at every position, 0/1/8/9 cookies, the valid response handed to TLS in one write, one write per record, or writes of 1/7/64/150 bytes, 8 cookies of 700 bytes (more than the client's read buffer), truncation at every byte, ALPN none/other, connection closed before/after the handshake, connection kept open; thorough: every ordered pair of record-level deviations); histories of 2 and 3 FetchData calls over 15 distinct scripts; the project's own key-exchange handler as peer; destination of the following NTS request"
 	})
 }
